@@ -1,6 +1,7 @@
 import TypstyleModel.Props.C04
 import TypstyleModel.Proofs.Emits
 import TypstyleModel.Proofs.Tokens
+import TypstyleModel.Props.RouteM
 /-! C06 — no comment lost, duplicated, reordered or reworded (partial: printer side). -/
 namespace Typstyle
 open Pretty
@@ -73,5 +74,20 @@ theorem C06_comments_preserved_all_layouts (root : Node) (d : Twin.Doc) (h : com
     (u : Nat) (m : Mode) (xs : List Atom) (hl : Lay m (d.fam u) xs) :
     cmtText xs = (specCmts (prepare root)).toList :=
   certified_comments root d h u m xs hl
+
+/-- T6.2 for **every comment**: the document `convert_comment` builds holds comment text only and
+contains exactly the non-blank characters of the comment, in order — line comments, block comments in
+the bullet style and in the re-aligned style, any indentation, any line endings (CR, CRLF, LF), any
+characters.  No hypothesis. -/
+theorem C06_comment_conversion_is_exact (e : Env) (n : ANode) :
+    Post (convComment e n) (fun c => c.d.commentOnly = true ∧ c.d.allChars = nonws n.text.toList) :=
+  convComment_ok e n
+
+/-- T6.1 without a certificate (route M): for every expression tree of the covered fragment the
+rendered layout, at every width and unit, contains exactly the tree's comments, complete and in order. -/
+theorem C06_fragment_comments_preserved (e : Env) (fuel : Nat) (ctx : Ctx) (n : ANode) (hx : isExpr n = true) (hq : inFrag n = true)
+    (d : Twin.Doc) (k k' : St) (h : ((knot e fuel).expr ctx n).run k = .ok (d, k')) (u w : Nat) :
+    cmtText (best w 0 [⟨0, .brk, d.fam u⟩]) = (specCmts n).toList :=
+  (routeM_expr e fuel ctx n hx hq d k k' h u w).2.1
 
 end Typstyle
